@@ -971,4 +971,77 @@ MUTANTS += [
              (HST, "                TorrentData::Small(t) => t.clean_and_get_num_peers(now),\n                TorrentData::Large(t) => t.clean_and_get_num_peers(now),", "                TorrentData::Small(t) => t.clean_and_get_num_peers(current_time),\n                TorrentData::Large(t) => t.clean_and_get_num_peers(current_time),")]),
  dict(id="BENIGN-extra-logging-and-temp", props=["C01", "C02", "C20", "C12"], benign=True,
       edits=[(SWR, "        let status =\n            PeerStatus::from_event_and_bytes_left(request.event.into(), request.bytes_left);", "        let event = request.event.into();\n        let status = PeerStatus::from_event_and_bytes_left(event, request.bytes_left);\n        ::log::trace!(\"announce status: {:?}\", status);")]),
+ dict(id="C20-remove-all-peers-skips-large-maps", props=["C20"], expect={"C20": r"tally#udp#forbidden_torrent_peers_not_removed"},
+      edits=[(US+"swarm.rs", """                Self::Large(peer_map) => {
+                    for peer in peer_map.peers.values() {
+                        statistics_messages.push(StatisticsMessage::PeerRemoved(peer.peer_id));
+                    }
+                }
+            }
+        }
+
+        *self = Self::default();""", """                Self::Large(_) => {}
+            }
+        }
+
+        *self = Self::default();""")]),
+ dict(id="C20-forbidden-test-only-in-allow-mode", props=["C20"], expect={"C20": r"totals#udp#peers_of_forbidden_torrents|export#udp#only_permitted_torrents"},
+      edits=[(US+"swarm.rs", """                if !access_list_cache
+                    .load()
+                    .allows(access_list_mode, &info_hash.0)
+                {
+                    peer_map.remove_all_peers(config, statistics_messages);""", """                if matches!(access_list_mode, AccessListMode::Allow)
+                    && !access_list_cache
+                        .load()
+                        .allows(access_list_mode, &info_hash.0)
+                {
+                    peer_map.remove_all_peers(config, statistics_messages);""")]),
+ dict(id="C20-forbidden-peers-vanish-silently", props=["C20"], expect={"C20": r"tally#udp#forbidden_torrent_peers_not_removed"},
+      edits=[(US+"swarm.rs", """                    peer_map.remove_all_peers(config, statistics_messages);
+
+                    continue;""", """                    *peer_map = PeerMap::default();
+
+                    continue;""")]),
+ dict(id="BENIGN-C20-forbidden-map-not-reset", props=["C20", "C01", "C11"], benign=True,
+      edits=[(US+"swarm.rs", """            }
+        }
+
+        *self = Self::default();
+    }""", """            }
+        }
+    }""")]),
+ dict(id="BENIGN-C03-std-to-ipv4-mapped", props=["C03"], benign=True,
+      edits=[(CM+"lib.rs", """                match addr.ip().octets() {
+                    // Convert IPv4-mapped address (available in std but nightly-only)
+                    [0, 0, 0, 0, 0, 0, 0, 0, 0, 0, 0xff, 0xff, a, b, c, d] => Self(SocketAddr::V4(
+                        SocketAddrV4::new(Ipv4Addr::new(a, b, c, d), addr.port()),
+                    )),
+                    _ => Self(addr.into()),
+                }""", """                match addr.ip().to_ipv4_mapped() {
+                    Some(ip) => Self(SocketAddr::V4(SocketAddrV4::new(ip, addr.port()))),
+                    None => Self(addr.into()),
+                }"""),
+             (CM+"lib.rs", "use std::net::{Ipv4Addr, SocketAddr, SocketAddrV4, SocketAddrV6};", "use std::net::{SocketAddr, SocketAddrV4, SocketAddrV6};"),
+             ("crates/ws/src/common.rs", """            IpAddr::V6(addr) => match addr.octets() {
+                [0, 0, 0, 0, 0, 0, 0, 0, 0, 0, 0xff, 0xff, _, _, _, _] => Self::V4,
+                _ => Self::V6,
+            },""", """            IpAddr::V6(addr) => {
+                if addr.to_ipv4_mapped().is_some() {
+                    Self::V4
+                } else {
+                    Self::V6
+                }
+            }""")]),
+ dict(id="C03-to-ipv4-also-converts-compatible-addresses", props=["C03"], expect={"C03": r"table#CanonicalSocketAddr::new"},
+      edits=[(CM+"lib.rs", """                match addr.ip().octets() {
+                    // Convert IPv4-mapped address (available in std but nightly-only)
+                    [0, 0, 0, 0, 0, 0, 0, 0, 0, 0, 0xff, 0xff, a, b, c, d] => Self(SocketAddr::V4(
+                        SocketAddrV4::new(Ipv4Addr::new(a, b, c, d), addr.port()),
+                    )),
+                    _ => Self(addr.into()),
+                }""", """                match addr.ip().to_ipv4() {
+                    Some(ip) => Self(SocketAddr::V4(SocketAddrV4::new(ip, addr.port()))),
+                    None => Self(addr.into()),
+                }"""),
+             (CM+"lib.rs", "use std::net::{Ipv4Addr, SocketAddr, SocketAddrV4, SocketAddrV6};", "use std::net::{SocketAddr, SocketAddrV4, SocketAddrV6};")]),
 ]
